@@ -639,6 +639,29 @@ pub(crate) async fn fashare(
             return Err(Error::InvalidLength);
         }
     }
+    // Check every decommitment against its commitment, and the bit a party claims together
+    // with the MAC it claims to hold for it under our key against that key. Only then may
+    // the claimed bits decide whether d0 or d1 = d0 ^ delta is opened below: opened on a
+    // false claim, the value together with the MAC the party really holds reveals delta.
+    for k in (0..n).filter(|k| *k != i) {
+        for r in 0..RHO {
+            let dm = &dm_k[k][r];
+            if !open_commitment(&c0_c1_cm_k[k][r].2, dm) {
+                return Err(Error::CommitmentCouldNotBeOpened);
+            }
+            if dm[0] > 1 {
+                return Err(Error::InvalidBitValue);
+            }
+            let start = if i > k { 1 + (i - 1) * 16 } else { 1 + i * 16 };
+            let Ok(mac) = dm[start..start + 16].try_into().map(u128::from_be_bytes) else {
+                return Err(Error::ConversionErr);
+            };
+            let (_, key) = xishares[l + r].1.0[k];
+            if mac != key.0 ^ if dm[0] == 1 { delta.0 } else { 0 } {
+                return Err(Error::AShareWrongMAC);
+            }
+        }
+    }
     dm_k[i] = dmvec;
 
     // 3 c) Compute bi to determine di_bi and send to all parties.
